@@ -19,13 +19,13 @@ tvars == <<cfg, in, abs, pc, ai, cj, errs, oks, verdict, ret, step, l, diffs>>
 Dummy(a) == [entry |-> "xml", idpInit |-> FALSE, artII |-> "x", respII |-> "x", assns |-> [k \in DOMAIN a.assns |-> [ii |-> "x", nb |-> "x", nooa |-> "x", confs |-> [j \in DOMAIN a.assns[k].confs |-> "x"]]]]
 
 TInit == /\ TLCSet(1, 0) /\ l = 1 /\ diffs = 0
-         /\ cfg = [mid |-> 0, skew |-> 0] /\ in = [entry |-> "xml", idpInit |-> FALSE, artII |-> "x", respII |-> "x", assns |-> <<>>]
+         /\ cfg = [mid |-> 0, skew |-> 0, delay |-> "ms"] /\ in = [entry |-> "xml", idpInit |-> FALSE, artII |-> "x", respII |-> "x", assns |-> <<>>]
          /\ abs = [artII |-> 0, respII |-> 0, assns |-> <<>>]
          /\ pc = "idle" /\ ai = 1 /\ cj = 1 /\ errs = <<>> /\ oks = <<>> /\ verdict = "none" /\ ret = 0 /\ step = "none"
 
 Load == /\ pc = "idle" /\ l <= Len(TraceLog)
         /\ LET e == TraceLog[l] IN
-             /\ cfg' = [mid |-> e.mid, skew |-> e.skew]
+             /\ cfg' = [mid |-> e.mid, skew |-> e.skew, delay |-> "ms"]
              /\ abs' = [artII |-> 0, respII |-> e.abs.respII, assns |-> e.abs.assns] /\ in' = Dummy(e.abs)
         /\ pc' = "RespII" /\ ai' = 1 /\ cj' = 1 /\ errs' = <<>> /\ oks' = <<>>
         /\ verdict' = "none" /\ ret' = 0 /\ step' = "none"
